@@ -59,7 +59,11 @@ where
         let mean = self.welford_online.mean();
         let out = (self.last - mean) / std_dev;
         debug_assert!(out.is_finite(), "value must be finite");
-        Some(out)
+        // A sample z-score over n values cannot exceed (n - 1) / sqrt(n). When the mean is huge
+        // compared to the spread, cancellation in `last - mean` overshoots that bound noticeably.
+        let n = T::from(self.window_len()).expect("can convert");
+        let bound = (n - T::one()) / n.sqrt();
+        Some(out.max(-bound).min(bound))
     }
 }
 
